@@ -11,16 +11,9 @@ From LV Require Import Base.Bytes Base.Sx Model.Obj Model.DocQ Model.Writer Mode
   Model.Incremental Model.Utf Gen.Lex Gen.SaveFmt Gen.Inc Proofs.IncrementalProofs Proofs.LexProofs Proofs.RealProofs
   Proofs.ObjectRtProofs Proofs.SaveProofs Proofs.FilterProofsDict Spec.SaveSpec Proofs.LoadProofs Proofs.LoadProofsFile
   Proofs.LoadProofsXref Proofs.LoadProofsTable Proofs.LoadProofsAgain Proofs.LoadProofsStream Proofs.LoadProofsFull
-  Proofs.StrictLoadProofs Proofs.StrictRevisionProofs Proofs.StrictIncrementalProofs Proofs.C07Bytes Proofs.C07BytesTable.
+  Proofs.StrictLoadProofs Proofs.StrictRevisionProofs Proofs.StrictIncrementalProofs Proofs.C07Bytes Proofs.C07BytesTable Proofs.C07BytesStream.
 
 Local Open Scope N_scope.
-
-(* ---------- keys of the table = numbers of the objects ---------- *)
-Lemma obj_at_keys buf es os : Forall2 (obj_at buf) es os -> map fst es = obj_numbers os.
-Proof.
-  induction 1 as [|[k e] [id o] es os [off [g [_ [Hid _]]]] _ IH]; [reflexivity|]. cbn [fst snd] in Hid. subst id.
-  cbn [map fst obj_numbers]. f_equal. exact IH.
-Qed.
 
 Theorem inc_table_good_nums F v m xs xt entries t objs s :
   good_file F v m xs xt entries t objs ->
@@ -202,60 +195,93 @@ Proof.
 Qed.
 
 (* ====================================================================================== *)
-(* ANY NUMBER of updates                                                                   *)
+(* ANY NUMBER of updates, either format                                                    *)
 (* ====================================================================================== *)
-(* A history: a file written by Document::save, then any number of IncrementalDocument::save, each one made from
-   the bytes of the previous file and from the document / xref_start the loader returned for those bytes.
-   [lopdf_history F xs objs]: F is the newest file, xs its startxref value, objs the objects it must load to. *)
-Inductive lopdf_history : bytes -> N -> objmap -> Prop :=
-| hist_save d :
-    savable d -> known_deep d = false -> small_file XTable d -> dict_get (d_trailer d) K_XRefStm = None ->
-    lopdf_history (so_bytes (save XTable d)) (Save.blen (body_of d)) (norm_objects (d_objects (SaveSpec.written d)))
-| hist_update F xs objs pd s :
-    lopdf_history F xs objs ->
-    load F = LOk pd XTTable ->                                               (* Document::load_mem on the previous bytes *)
-    i_bytes s = F -> i_prev s = {| xd_doc := pd; xd_start := xs; xd_type := XTable |} ->
+(* a saved file of either format is a good file whose trailer / objects are those of [reloaded] *)
+Lemma saved_good_gen fmt d :
+  savable d -> known_deep d = false -> small_file fmt d -> dict_get (d_trailer d) K_XRefStm = None ->
+  exists entries,
+    good_file (so_bytes (save fmt d)) (d_version d) (d_binary_mark d) (Save.blen (body_of d)) (xtype_of fmt)
+              entries (d_trailer (reloaded fmt d)) (d_objects (reloaded fmt d)).
+Proof.
+  intros S K Hs Hstm. destruct fmt.
+  - eexists. apply (saved_good d S K Hs Hstm).
+  - pose proof (savable_written d S) as Sc. rewrite (written_savable d S) in Sc.
+    pose proof (saved_stream_good (raise_max_id d) Sc K Hs Hstm) as G.
+    pose proof (good_file_loads _ _ _ _ _ _ _ _ G) as L1.
+    assert (L2 : load (so_bytes (save XStream d)) = LOk (reloaded XStream d) XTStream).
+    { apply (load_save_gen XStream d); [apply savable_written; exact S | rewrite known_deep_written by exact S; exact K | exact Hs]. }
+    change (so_bytes (save_core XStream (raise_max_id d))) with (so_bytes (save XStream d)) in L1.
+    rewrite L2 in L1.
+    pose proof (f_equal (fun r => match r with LOk x _ => d_trailer x | _ => [] end) L1) as Et.
+    pose proof (f_equal (fun r => match r with LOk x _ => d_objects x | _ => [] end) L1) as Eo.
+    cbn beta iota in Et, Eo. cbn [loaded d_trailer d_objects] in Et, Eo.
+    eexists. cbn [xtype_of]. rewrite Et, Eo. exact G.
+Qed.
+
+(* what the loader returns after an update: the new objects over the previous ones; in the stream format also the
+   new cross-reference stream object (number max_id + 1), which the loader keeps among the objects *)
+Definition step_objs (fmt : xref_type) (objs : objmap) (nd : doc) (pos0 : N) : objmap :=
+  match fmt with
+  | XTable => Incremental.overlay objs (norm_objects (d_objects nd))
+  | XStream => Incremental.overlay objs (norm_objects (d_objects nd)) ++ [xso nd pos0]
+  end.
+
+(* A history: a file written by Document::save (either cross-reference format), then any number of
+   IncrementalDocument::save, each one made from the bytes of the previous file and from the document, the xref_start
+   and the cross-reference type the loader returned for those bytes.
+   [lopdf_history F xs fmt objs]: F is the newest file, xs its startxref value, objs the objects it must load to. *)
+Inductive lopdf_history : bytes -> N -> xref_type -> objmap -> Prop :=
+| hist_save fmt d :
+    savable d -> known_deep d = false -> small_file fmt d -> dict_get (d_trailer d) K_XRefStm = None ->
+    lopdf_history (so_bytes (save fmt d)) (Save.blen (body_of d)) fmt (d_objects (reloaded fmt d))
+| hist_update F xs fmt objs pd s :
+    lopdf_history F xs fmt objs ->
+    load F = LOk pd (xtype_of fmt) ->                                        (* Document::load_mem on the previous bytes *)
+    i_bytes s = F -> i_prev s = {| xd_doc := pd; xd_start := xs; xd_type := fmt |} ->
     upd_dom xs (xd_doc (i_new s)) ->
+    d_max_id pd <= d_max_id (xd_doc (i_new s)) ->                            (* new_from_prev copies max_id, add_object raises it *)
     Save.blen (io_bytes (inc_save s)) < u32_mod ->
     Forall (fun io : oid * obj => In (fst io) (map fst (d_objects pd)) \/ ~ In (fst (fst io)) (obj_numbers (d_objects pd)))
            (d_objects (xd_doc (i_new s))) ->
-    lopdf_history (io_bytes (inc_save s)) (io_start (inc_save s))
-                  (Incremental.overlay objs (norm_objects (d_objects (xd_doc (i_new s))))).
+    lopdf_history (io_bytes (inc_save s)) (io_start (inc_save s)) fmt
+                  (step_objs fmt objs (xd_doc (i_new s)) (Save.blen (F ++ inc_lines (xd_doc (i_new s))))).
 
 Lemma good_file_start F v m xs xt entries t objs : good_file F v m xs xt entries t objs -> get_xref_start F = Some xs.
 Proof. intro G. destruct (gf_tail _ _ _ _ _ _ _ _ G) as [front [Et [H1 [H2 H3]]]]. rewrite Et. apply get_xref_start_rt; assumption. Qed.
 
-Theorem history_good F xs objs :
-  lopdf_history F xs objs -> exists v m entries t, good_file F v m xs XTTable entries t objs.
+Theorem history_good F xs fmt objs :
+  lopdf_history F xs fmt objs -> exists v m entries t, good_file F v m xs (xtype_of fmt) entries t objs.
 Proof.
-  induction 1 as [d S K Hs Hstm | F xs objs pd s H IH Hload Hb Hprev Hu Hlen Hids].
-  - do 4 eexists. apply (saved_good d S K Hs Hstm).
+  induction 1 as [fmt d S K Hs Hstm | F xs fmt objs pd s H IH Hload Hb Hprev Hu Hmx Hlen Hids].
+  - destruct (saved_good_gen fmt d S K Hs Hstm) as [entries G]. do 4 eexists. exact G.
   - destruct IH as [v [m [entries [t G]]]].
-    rewrite (good_file_loads _ _ _ _ _ _ _ _ G) in Hload. inversion Hload; subst pd. cbn [loaded d_objects] in Hids.
-    destruct (inc_table_good_nums F v m xs XTTable entries t objs s G Hb) as [_ G']; try assumption.
-    { rewrite Hprev. reflexivity. }
-    do 4 eexists. exact G'.
+    rewrite (good_file_loads _ _ _ _ _ _ _ _ G) in Hload. inversion Hload; subst pd. cbn [loaded d_objects d_max_id] in Hids, Hmx.
+    assert (Hty : xd_type (i_prev s) = fmt) by (rewrite Hprev; reflexivity).
+    destruct fmt; cbn [step_objs xtype_of].
+    + destruct (inc_table_good_nums F v m xs _ entries t objs s G Hb Hty Hu Hlen Hids) as [_ G']. do 4 eexists. exact G'.
+    + destruct (inc_stream_good_nums F v m xs _ entries t objs s G Hb Hty Hu Hlen Hids Hmx) as [_ G']. do 4 eexists. exact G'.
 Qed.
 
 (* every file of a history loads, to the fold of the overlays; its startxref value is the one the next update uses *)
-Theorem history_loads F xs objs :
-  lopdf_history F xs objs ->
+Theorem history_loads F xs fmt objs :
+  lopdf_history F xs fmt objs ->
   get_xref_start F = Some xs /\
-  exists v m t mx, load F = LOk {| d_version := v; d_binary_mark := m; d_trailer := t; d_objects := objs; d_max_id := mx |} XTTable.
+  exists v m t mx, load F = LOk {| d_version := v; d_binary_mark := m; d_trailer := t; d_objects := objs; d_max_id := mx |} (xtype_of fmt).
 Proof.
-  intro H. destruct (history_good F xs objs H) as [v [m [entries [t G]]]]. split; [apply (good_file_start _ _ _ _ _ _ _ _ G)|].
+  intro H. destruct (history_good F xs fmt objs H) as [v [m [entries [t G]]]]. split; [apply (good_file_start _ _ _ _ _ _ _ _ G)|].
   exists v, m, t, (xmap_max entries). apply (good_file_loads _ _ _ _ _ _ _ _ G).
 Qed.
 
 (* every update of a history succeeds *)
-Theorem history_update_ok F xs objs pd s :
-  lopdf_history F xs objs -> i_bytes s = F -> i_prev s = {| xd_doc := pd; xd_start := xs; xd_type := XTable |} ->
+Theorem history_update_ok F xs fmt objs pd s :
+  lopdf_history F xs fmt objs -> i_bytes s = F -> i_prev s = {| xd_doc := pd; xd_start := xs; xd_type := fmt |} ->
   upd_dom xs (xd_doc (i_new s)) -> Save.blen (io_bytes (inc_save s)) < u32_mod ->
   io_status (inc_save s) = IncOk.
 Proof.
-  intros H Hb Hprev Hu Hlen. destruct (history_good F xs objs H) as [v [m [entries [t G]]]].
+  intros H Hb Hprev Hu Hlen. destruct (history_good F xs fmt objs H) as [v [m [entries [t G]]]].
   destruct (good_file_offset _ _ _ _ _ _ _ _ G) as [Hoff [Hsep _]].
-  pose proof (inc_save_shape_gen XTable s) as Hshape. cbv zeta in Hshape. rewrite Hb in Hshape.
+  pose proof (inc_save_shape_gen fmt s) as Hshape. cbv zeta in Hshape. rewrite Hb in Hshape.
   destruct (Hshape Hoff Hsep) as [Hst _]; try assumption; [rewrite Hprev; reflexivity | apply (ud_rev _ _ Hu) | apply (ud_mark _ _ Hu)].
 Qed.
 
